@@ -138,6 +138,10 @@ def facts_of(test: ast.expr, polarity: bool) -> List[Tuple[ast.expr, bool]]:
         if isinstance(test.op, ast.Or) and not polarity:
             return [f for v in test.values for f in facts_of(v, False)]
         return [(test, polarity)]
+    if isinstance(test, ast.Compare) and len(test.ops) == 1 and isinstance(test.ops[0], (ast.NotIn, ast.NotEq, ast.IsNot)):
+        # x not in T is not (x in T): one atom for both spellings
+        pos = {ast.NotIn: ast.In, ast.NotEq: ast.Eq, ast.IsNot: ast.Is}[type(test.ops[0])]()
+        return [(ast.copy_location(ast.Compare(left=test.left, ops=[pos], comparators=test.comparators), test), not polarity)]
     return [(test, polarity)]
 
 
